@@ -28,6 +28,7 @@ CONSTANTS
   PurgeFences = TRUE
   SaveUnderLock = TRUE
   PurgeHoldsShard = TRUE
+  LoadUnderLock = TRUE
   AbsentPurge = FALSE
   Reapplies = FALSE
   Ghost = FALSE
